@@ -502,6 +502,21 @@ class _SplitTupleAssigns(ast.NodeTransformer):
         return node
 
 
+class _WhileTrueBreak(ast.NodeTransformer):
+    """`while True: if X: break; rest` is `while not X: rest` (no else clause on the loop)"""
+
+    def visit_While(self, node):
+        self.generic_visit(node)
+        if isinstance(node.test, ast.Constant) and node.test.value is True and not node.orelse and len(node.body) >= 2 and \
+                isinstance(node.body[0], ast.If) and not node.body[0].orelse and len(node.body[0].body) == 1 and \
+                isinstance(node.body[0].body[0], ast.Break):
+            x = node.body[0].test
+            test = x.operand if isinstance(x, ast.UnaryOp) and isinstance(x.op, ast.Not) else \
+                ast.copy_location(ast.UnaryOp(op=ast.Not(), operand=x), x)
+            return ast.fix_missing_locations(ast.copy_location(ast.While(test=test, body=node.body[1:], orelse=[]), node))
+        return node
+
+
 class _MergeFlagIfs(ast.NodeTransformer):
     """`if C: f = True else: f = E` is (in truth value) `f = C or E`; likewise the three sibling forms.  Only for a plain name f."""
 
@@ -703,6 +718,7 @@ def inline_project(trees, exports):
                 _SplitTupleAssigns().visit(fn_)
                 _ReduceToLoop().visit(fn_)
                 _NormaliseIfs().visit(fn_)
+                _WhileTrueBreak().visit(fn_)
                 _MergeFlagIfs().visit(fn_)
                 _GuardContinue().visit(fn_)
         for st in tree.body:
